@@ -28,6 +28,8 @@ Hypothesis commit_ok : forall lc c p ln len, c < lc ->
 Hypothesis stale_ok : stale_ack_ignored ru = true.
 (* the follower's prev-entry test accepts only a matching term *)
 Hypothesis prev_sound : forall xt pt, prev_ok ru xt pt = true -> xt = pt.
+(* the leader sends entries only together with a prev entry that is still in its log *)
+Hypothesis need_prev : entries_need_prev ru = true.
 (* a vote is granted only to a candidate whose log is at least as up to date *)
 Hypothesis vote_sound : forall lli llt mli mlt g, vote_log_ok ru lli llt mli mlt g = true ->
   N.ltb mlt llt || (N.eqb llt mlt && N.ltb mli lli) || (N.eqb llt mlt && N.eqb lli mli) = true.
@@ -58,7 +60,9 @@ Record SI (s : sys) (gl : ledger) (a : Vote.sys) : Prop := {
      map fst (match_index ls) = peers_of cfg i /\
      forall p mi, In (p, mi) (match_index ls) ->
        mi = 0 \/ exists fol, In (p, i, AER (term (nd_of s i)) true fol mi) (pool s);
-  s_aer : forall v dst t b fol mi, In (v, dst, AER t b fol mi) (pool s) -> v <> dst
+  s_aer : forall v dst t b fol mi, In (v, dst, AER t b fol mi) (pool s) -> v <> dst;
+  (* compaction only ever drops committed entries *)
+  s_base : forall i, i < n_nodes cfg -> base (nd_of s i) <= commit (nd_of s i) /\ fin (nd_of s i) <= commit (nd_of s i)
 }.
 
 (* ---------------- monotonicity ---------------- *)
@@ -154,6 +158,27 @@ Proof.
   eapply cp_consistent; eauto; lia.
 Qed.
 
+(* ---------------- compaction only drops what every acceptable leader holds ---------------- *)
+Lemma comp_ok s gl a : FIa s gl a -> SI s gl a -> CompOK cfg s gl.
+Proof.
+  intros [HR [HI [H8 [HM HC]]]] HS src dst t ldr pi pt es lc Hin Hdst Hge.
+  destruct (lm_M1 _ _ _ _ HM _ _ _ _ _ _ _ _ Hin) as [Hld _].
+  destruct (s_base _ _ _ HS dst Hdst) as [Hb _].
+  set (nd := nd_of s dst) in *.
+  destruct (s_commit _ _ _ HS dst Hdst) as [E0|[t0 [m0 [Hq [Ho [Hc [Ht0 [Hpre Hlen]]]]]]]]; fold nd in E0 || fold nd in Hpre, Hlen, Ht0, Hc.
+  - assert (base nd = 0) by lia. rewrite H. reflexivity.
+  - assert (HP : firstn (N.to_nat (commit nd)) (gl t) = firstn (N.to_nat (commit nd)) (gl t0)).
+    { destruct (N.eq_dec t0 t) as [->|Hne]; [reflexivity|].
+      assert (Hlt : t0 < t) by lia.
+      pose proof (leader_completeness_inv cfg ru quorum_ok ack_ok s gl a HC t0 m0 Hq t src Hld Hlt) as HP0. unfold P in HP0.
+      replace (firstn (N.to_nat (commit nd)) (gl t)) with (firstn (N.to_nat (commit nd)) (firstn m0 (gl t)))
+        by (rewrite firstn_firstn; f_equal; lia).
+      rewrite HP0. rewrite firstn_firstn. f_equal. lia. }
+    replace (firstn (N.to_nat (base nd)) (log nd)) with (firstn (N.to_nat (base nd)) (firstn (N.to_nat (commit nd)) (log nd)))
+      by (rewrite firstn_firstn; f_equal; lia).
+    rewrite Hpre, <- HP, firstn_firstn. f_equal. lia.
+Qed.
+
 (* ---------------- one node changes: what has to be shown ---------------- *)
 Lemma nth_upd' s a i x out j : R cfg s a -> i < n_nodes cfg ->
   nd_of (upd_node s i x out) j = if N.eqb j i then x else nd_of s j.
@@ -168,9 +193,10 @@ Lemma si_upd s gl a gl' a' i x out :
      map fst (match_index ls) = peers_of cfg i /\
      forall p mi, In (p, mi) (match_index ls) -> mi = 0 \/ exists fol, In (p, i, AER (term x) true fol mi) (pool s)) ->
   (forall d t b fol mi, In (d, AER t b fol mi) out -> i <> d) ->
+  base x <= commit x /\ fin x <= commit x ->
   SI (upd_node s i x out) gl' a'.
 Proof.
-  intros [HR [HI [H8 [HM HC]]]] [S1 S2 S3 S4] Hi Hl He H1 H2 H3 H4.
+  intros [HR [HI [H8 [HM HC]]]] [S1 S2 S3 S4 S5] Hi Hl He H1 H2 H3 H4 H5.
   assert (Hp : forall e, In e (pool s) -> In e (pool (upd_node s i x out))).
   { intros e Hin. apply pool_upd. left. exact Hin. }
   constructor.
@@ -190,12 +216,13 @@ Proof.
   - intros v dst t b fol mi Hin. apply pool_upd in Hin.
     destruct Hin as [Hin|[d [m0 [Ho E]]]]; [eapply S4; eauto|].
     inversion E; subst. eapply H4; eauto.
+  - intros j Hj. rewrite (nth_upd' s a) by assumption. destruct (N.eqb_spec j i) as [->|Hne]; [exact H5|apply S5; exact Hj].
 Qed.
 
 Lemma si_stay s gl a gl' a' :
   SI s gl a -> incl (Vote.leaders a) (Vote.leaders a') -> gl_ext gl gl' -> SI s gl' a'.
 Proof.
-  intros [S1 S2 S3 S4] Hl He. constructor; auto.
+  intros [S1 S2 S3 S4 S5] Hl He. constructor; auto.
   - intros i Hi. apply (cov_mono s gl a s gl' a' (log (nd_of s i)) (log (nd_of s i)) _ (term (nd_of s i)) (term (nd_of s i))); auto;
       [apply firstn_all|lia].
   - intros src dst t ldr pi pt es lc Hin.
@@ -206,17 +233,20 @@ Qed.
 Definition K2 (nd x : node) : Prop :=
   (commit x = commit nd \/ commit x = 0) /\ firstn (length (log nd)) (log x) = log nd /\ term nd <= term x /\
   (rl x = Leader -> rl nd = Leader /\ term x = term nd /\
-     forall ls', lvs x = Some ls' -> exists ls, lvs nd = Some ls /\ match_index ls' = match_index ls).
+     forall ls', lvs x = Some ls' -> exists ls, lvs nd = Some ls /\ match_index ls' = match_index ls) /\
+  ((base x = base nd /\ fin x = fin nd /\ commit x = commit nd) \/ (base x = 0 /\ fin x = 0)).
 
 Lemma K2_refl nd : K2 nd nd.
 Proof. unfold K2. repeat split; auto; try apply firstn_all; try lia. intros ls' Hls. exists ls'. auto. Qed.
 (* same log, commit kept or reset, term not smaller, not a leader afterwards *)
-Lemma K2_nl nd x : (commit x = commit nd \/ commit x = 0) -> log x = log nd -> term nd <= term x -> rl x <> Leader -> K2 nd x.
-Proof. intros A B C D. unfold K2. rewrite B. repeat split; auto; try apply firstn_all; contradiction. Qed.
+Lemma K2_nl nd x : (commit x = commit nd \/ commit x = 0) -> log x = log nd -> term nd <= term x -> rl x <> Leader ->
+  ((base x = base nd /\ fin x = fin nd /\ commit x = commit nd) \/ (base x = 0 /\ fin x = 0)) -> K2 nd x.
+Proof. intros A B C D F. unfold K2. rewrite B. repeat split; auto; try apply firstn_all; contradiction. Qed.
 (* same log, commit, term, role and leader state *)
-Lemma K2_same nd x : commit x = commit nd -> log x = log nd -> term x = term nd -> rl x = rl nd -> lvs x = lvs nd -> K2 nd x.
+Lemma K2_same nd x : commit x = commit nd -> log x = log nd -> term x = term nd -> rl x = rl nd -> lvs x = lvs nd ->
+  base x = base nd -> fin x = fin nd -> K2 nd x.
 Proof.
-  intros A B C D E. unfold K2. rewrite B, C, D, E. repeat split; auto; try apply firstn_all; try lia.
+  intros A B C D E F G. unfold K2. rewrite B, C, D, E. repeat split; auto; try apply firstn_all; try lia.
   intros ls' Hls. exists ls'. auto.
 Qed.
 
@@ -253,7 +283,8 @@ Qed.
 (* handle_request_vote_response: either nothing that matters changes, or the candidate becomes leader *)
 Lemma h_rvr_shape self nd from t g :
   let x := h_rvr cfg self nd from t g in
-  K2 nd x \/ (exists y, x = become_leader cfg self y /\ log y = log nd /\ commit y = commit nd /\ term y = term nd).
+  K2 nd x \/ (exists y, x = become_leader cfg self y /\ log y = log nd /\ commit y = commit nd /\ term y = term nd /\
+                        base y = base nd /\ fin y = fin nd).
 Proof.
   unfold h_rvr. destruct (rl nd) eqn:Er; try (left; apply K2_refl).
   destruct (N.ltb_spec (term nd) t); [left; apply K2_nl; cbn; auto; try lia; discriminate|].
@@ -266,7 +297,7 @@ Qed.
 (* try_advance_commit_index *)
 Lemma try_advance_shape y :
   let x := try_advance cfg ru y in
-  log x = log y /\ term x = term y /\ rl x = rl y /\ lvs x = lvs y /\
+  log x = log y /\ term x = term y /\ rl x = rl y /\ lvs x = lvs y /\ base x = base y /\ fin x = fin y /\
   (commit x = commit y \/
    exists ls e, rl y = Leader /\ lvs y = Some ls /\ commit y < commit x /\
      commit x = (let ms := sort_asc (map snd (match_index ls) ++ [llen (log y)]) in
@@ -277,11 +308,14 @@ Proof.
   destruct (lvs y) as [ls|] eqn:El; try (repeat split; auto; fail).
   match goal with |- context [if N.ltb ?c ?nc then _ else _] => destruct (N.ltb_spec c nc) as [Hlt|Hge] end;
     try (repeat split; auto; fail).
-  match goal with |- context [match nth_entry ?l ?nc with Some _ => _ | None => _ end] => destruct (nth_entry l nc) as [e|] eqn:Ee end;
+  match goal with |- context [match lookup ?b ?l ?nc with Some _ => _ | None => _ end] => destruct (lookup b l nc) as [e|] eqn:Ee end;
     try (repeat split; auto; fail).
   destruct (commit_term_ok ru (eterm e) (term y)) eqn:Et; try (repeat split; auto; fail).
   apply cterm_sound in Et.
-  cbn [log term rl lvs commit]. repeat split; auto. right. exists ls, e. repeat split; auto.
+  assert (Ee' : nth_entry (log y) (nth (N.to_nat (commit_pick ru (llen (sort_asc (map snd (match_index ls) ++ [llen (log y)]))) (quorum cfg)))
+                                       (sort_asc (map snd (match_index ls) ++ [llen (log y)])) 0) = Some e).
+  { unfold lookup in Ee. match type of Ee with (if ?c then _ else _) = _ => destruct c end; [discriminate|exact Ee]. }
+  cbn [log term rl lvs commit base fin]. repeat split; auto. right. exists ls, e. repeat split; auto.
 Qed.
 
 (* handle_append_entries_response: nothing that matters changes, or a success in the leader's own term is recorded *)
@@ -290,7 +324,8 @@ Lemma h_aer_shape self nd from t succ mi :
   K2 nd x \/
   (exists ls, rl nd = Leader /\ t = term nd /\ succ = true /\ lvs nd = Some ls /\
      x = try_advance cfg ru (Node (term nd) (voted nd) (rl nd) (votes nd) (log nd) (commit nd) (in_prevote nd) (prevotes nd)
-                            (Some (LV (aset (next_index ls) from (mi + 1)) (aset (match_index ls) from mi) (adel (backoff ls) from))))).
+                            (Some (LV (aset (next_index ls) from (mi + 1)) (aset (match_index ls) from mi) (adel (backoff ls) from)))
+                            (fin nd) (base nd))).
 Proof.
   unfold h_aer. destruct (rl nd) eqn:Er; try (left; apply K2_refl).
   destruct (N.ltb_spec (term nd) t); [left; apply K2_nl; cbn; auto; try lia; discriminate|].
@@ -311,8 +346,10 @@ Lemma si_frame s gl a gl' a' i x out :
   (forall d t b fol mi, In (d, AER t b fol mi) out -> i <> d) ->
   SI (upd_node s i x out) gl' a'.
 Proof.
-  intros HF HS Hi Hl He [Kc [Kl [Kt Kr]]] Hnoae Haer.
-  pose proof HS as [S1 S2 S3 S4].
+  intros HF HS Hi Hl He [Kc [Kl [Kt [Kr Kb]]]] Hnoae Haer.
+  pose proof HS as [S1 S2 S3 S4 S5].
+  assert (HB : base x <= commit x /\ fin x <= commit x).
+  { destruct (S5 i Hi) as [B1 B2]. destruct Kb as [[Eb [Ef Ec]]|[Eb Ef]]; rewrite Eb, Ef; [rewrite Ec; auto|split; lia]. }
   apply (si_upd s gl a gl' a' i x out); auto.
   - destruct Kc as [Kc|Kc]; rewrite Kc; [|left; reflexivity].
     apply (cov_same s gl a (log (nd_of s i)) (log x) _ (term (nd_of s i)) (term x)); auto.
@@ -326,9 +363,12 @@ Lemma si_leader s gl a gl' a' i y :
   FIa s gl a -> SI s gl a -> i < n_nodes cfg ->
   incl (Vote.leaders a) (Vote.leaders a') -> gl_ext gl gl' ->
   log y = log (nd_of s i) -> commit y = commit (nd_of s i) -> term y = term (nd_of s i) ->
+  base y = base (nd_of s i) -> fin y = fin (nd_of s i) ->
   SI (upd_node s i (become_leader cfg i y) []) gl' a'.
 Proof.
-  intros HF HS Hi Hl He El Ec Et. pose proof HS as [S1 S2 S3 S4].
+  intros HF HS Hi Hl He El Ec Et Eb Ef. pose proof HS as [S1 S2 S3 S4 S5].
+  assert (HB : base (become_leader cfg i y) <= commit (become_leader cfg i y) /\ fin (become_leader cfg i y) <= commit (become_leader cfg i y)).
+  { unfold become_leader. cbn [base fin commit]. rewrite Eb, Ef, Ec. apply S5. exact Hi. }
   apply (si_upd s gl a gl' a' i _ []); auto.
   all: try (intros ? ? ? ? ? ? ? []; fail).
   all: try (intros ? ? ? ? ? []; fail).
@@ -342,14 +382,14 @@ Qed.
 Lemma si_hb s gl a gl' a' i :
   FIa s gl a -> SI s gl a -> i < n_nodes cfg ->
   incl (Vote.leaders a) (Vote.leaders a') -> gl_ext gl gl' ->
-  SI (upd_node s i (nd_of s i) (heartbeat_msgs cfg i (nd_of s i))) gl' a'.
+  SI (upd_node s i (nd_of s i) (heartbeat_msgs cfg ru i (nd_of s i))) gl' a'.
 Proof.
-  intros HF HS Hi Hl He. pose proof HS as [S1 S2 S3 S4]. pose proof HF as [HR [HI [H8 [HM HC]]]].
-  assert (Hhb : forall d m0, In (d, m0) (heartbeat_msgs cfg i (nd_of s i)) ->
+  intros HF HS Hi Hl He. pose proof HS as [S1 S2 S3 S4 S5]. pose proof HF as [HR [HI [H8 [HM HC]]]].
+  assert (Hhb : forall d m0, In (d, m0) (heartbeat_msgs cfg ru i (nd_of s i)) ->
             rl (nd_of s i) = Leader /\
             exists pi pt es, m0 = AE (term (nd_of s i)) i pi pt es (commit (nd_of s i))).
   { intros d m0 Hin. unfold heartbeat_msgs in Hin. destruct (rl (nd_of s i)) eqn:Er; try contradiction.
-    apply in_map_iff in Hin. destruct Hin as [pp [E Hp]]. destruct (entries_for (nd_of s i) pp) as [[pi0 pt0] es0] eqn:Ee.
+    apply in_map_iff in Hin. destruct Hin as [pp [E Hp]]. destruct (entries_for ru (nd_of s i) pp) as [[pi0 pt0] es0] eqn:Ee.
     injection E as <- <-. split; [reflexivity|]. eauto. }
   apply (si_upd s gl a gl' a' i _ _); auto.
   - intros d t ldr pi pt es lc Hin. destruct (Hhb _ _ Hin) as [Er [pi0 [pt0 [es0 E]]]].
@@ -362,27 +402,32 @@ Lemma si_ae s gl a gl' a' i src t ldr pi pt es lc x mi :
   FIa s gl a -> SI s gl a -> i < n_nodes cfg ->
   incl (Vote.leaders a) (Vote.leaders a') -> gl_ext gl gl' ->
   In (src, i, AE t ldr pi pt es lc) (pool s) ->
-  (pi = 0 \/ (pi <= llen (log (nd_of s i)) /\ term_at (log (nd_of s i)) (N.to_nat pi) = Some pt)) ->
+  (pi = 0 \/ (pi <= llen (log (nd_of s i)) /\ (term_at (log (nd_of s i)) (N.to_nat pi) = Some pt \/ pi <= base (nd_of s i)))) ->
   rl x = Follower -> term x = t -> term (nd_of s i) <= t ->
-  log x = append_entries es (log (nd_of s i)) ->
+  log x = append_entries (gap_refused ru) (base (nd_of s i)) es (log (nd_of s i)) ->
+  base x = base (nd_of s i) -> fin x = fin (nd_of s i) ->
   commit x = (if N.ltb (commit (nd_of s i)) lc
               then follower_commit ru lc (commit (nd_of s i)) pi (last_new pi es) (llen (log x))
               else commit (nd_of s i)) ->
   SI (upd_node s i x [(src, AER t true i mi)]) gl' a'.
 Proof.
-  intros HF HS Hi Hl He Hin Hok Hrl Hterm Hge Hlog Hcom.
-  pose proof HS as [S1 S2 S3 S4]. pose proof HF as [HR [HI [H8 [HM HC]]]].
+  intros HF HS Hi Hl He Hin Hok Hrl Hterm Hge Hlog Hbx Hfx Hcom.
+  pose proof HS as [S1 S2 S3 S4 S5]. pose proof HF as [HR [HI [H8 [HM HC]]]].
+  pose proof (comp_ok s gl a HF HS _ _ _ _ _ _ _ _ Hin Hi Hge) as Hcomp.
   destruct (lm_M1 _ _ _ _ HM _ _ _ _ _ _ _ _ Hin) as [Hld [Hseg [Hprev Hplen]]].
   pose proof (c_ae_src _ _ _ _ HC _ _ _ _ _ _ _ _ Hin) as Hsd.
   set (A := log (nd_of s i)) in *.
   assert (Hp : (N.to_nat pi <= length A)%nat).
   { destruct Hok as [->|[Hle _]]; [cbn; lia|unfold llen in Hle; lia]. }
   assert (Hag : firstn (N.to_nat pi) A = firstn (N.to_nat pi) (gl t)).
-  { destruct Hok as [->|[_ Ht]]; [reflexivity|].
-    destruct Hprev as [->|Ht']; [reflexivity|].
-    eapply LM_agree; [apply (lm_L1 _ _ _ _ HM i)|apply (lm_L2 _ _ _ _ HM t)|exact Ht|exact Ht']. }
-  destruct (append_entries_LM gl es A (N.to_nat pi) (gl t) (lm_wi_log _ _ _ _ HM i) (lm_wi_gl _ _ _ _ HM t)
-              (lm_L1 _ _ _ _ HM i) (lm_L2 _ _ _ _ HM t) Hp Hag Hseg) as [_ [_ [Fv [Lv _]]]].
+  { destruct Hok as [->|[_ [Ht|Hb]]]; [reflexivity| |].
+    - destruct Hprev as [->|Ht']; [reflexivity|].
+      eapply LM_agree; [apply (lm_L1 _ _ _ _ HM i)|apply (lm_L2 _ _ _ _ HM t)|exact Ht|exact Ht'].
+    - replace (firstn (N.to_nat pi) A) with (firstn (N.to_nat pi) (firstn (N.to_nat (base (nd_of s i))) A))
+        by (rewrite firstn_firstn; f_equal; lia).
+      rewrite Hcomp, firstn_firstn. f_equal. lia. }
+  destruct (append_entries_LM gl (gap_refused ru) (base (nd_of s i)) es A (N.to_nat pi) (gl t) (lm_wi_log _ _ _ _ HM i) (lm_wi_gl _ _ _ _ HM t)
+              (lm_L1 _ _ _ _ HM i) (lm_L2 _ _ _ _ HM t) Hp Hag Hseg Hcomp) as [_ [_ [Fv [Lv _]]]].
   rewrite <- Hlog in Fv, Lv.
   destruct (last_new_seg cfg ru quorum_ok ack_ok (gl t) pi es (lm_wi_gl _ _ _ _ HM t) Hplen Hseg) as [Hsl Hln].
   (* the old commit index stays covered *)
@@ -399,9 +444,13 @@ Proof.
       rewrite HP0. rewrite firstn_firstn. f_equal. lia. }
     assert (Hpre' : firstn (N.to_nat (commit (nd_of s i))) A = firstn (N.to_nat (commit (nd_of s i))) (gl t))
       by (rewrite HP; exact Hpre).
-    destruct (append_entries_keep gl es A (N.to_nat pi) (gl t) (N.to_nat (commit (nd_of s i))) (lm_wi_log _ _ _ _ HM i)
-                (lm_wi_gl _ _ _ _ HM t) (lm_L1 _ _ _ _ HM i) (lm_L2 _ _ _ _ HM t) Hp Hag Hseg Hlen Hpre') as [K1' K2'].
+    destruct (append_entries_keep gl (gap_refused ru) (base (nd_of s i)) es A (N.to_nat pi) (gl t) (N.to_nat (commit (nd_of s i))) (lm_wi_log _ _ _ _ HM i)
+                (lm_wi_gl _ _ _ _ HM t) (lm_L1 _ _ _ _ HM i) (lm_L2 _ _ _ _ HM t) Hp Hag Hseg Hcomp Hlen Hpre') as [K1' K2'].
     rewrite <- Hlog in K1', K2'. split; [rewrite K2'; exact HP|exact K1']. }
+  assert (HB : base x <= commit x /\ fin x <= commit x).
+  { destruct (S5 i Hi) as [B1 B2]. rewrite Hbx, Hfx, Hcom.
+    destruct (N.ltb_spec (commit (nd_of s i)) lc) as [Hlt|]; [|auto].
+    destruct (commit_ok lc (commit (nd_of s i)) pi (last_new pi es) (llen (log x)) Hlt) as [C1 _]. split; lia. }
   apply (si_upd s gl a gl' a' i x _); auto.
   - rewrite Hterm, Hcom. destruct (N.ltb_spec (commit (nd_of s i)) lc) as [Hlt|Hge0]; [|exact Old].
     destruct (commit_ok lc (commit (nd_of s i)) pi (last_new pi es) (llen (log x)) Hlt) as [C1 C2].
@@ -431,11 +480,12 @@ Lemma si_aer s gl a gl' a' i src t fol mi ls :
   rl (nd_of s i) = Leader -> t = term (nd_of s i) -> lvs (nd_of s i) = Some ls ->
   let nd := nd_of s i in
   let y := Node (term nd) (voted nd) (rl nd) (votes nd) (log nd) (commit nd) (in_prevote nd) (prevotes nd)
-             (Some (LV (aset (next_index ls) src (mi + 1)) (aset (match_index ls) src mi) (adel (backoff ls) src))) in
+             (Some (LV (aset (next_index ls) src (mi + 1)) (aset (match_index ls) src mi) (adel (backoff ls) src)))
+             (fin nd) (base nd) in
   SI (upd_node s i (try_advance cfg ru y) []) gl' a'.
 Proof.
   intros HF HS Hi Hl He Hin Hr Ht Hls nd y.
-  pose proof HS as [S1 S2 S3 S4]. pose proof HF as [HR [HI [H8 [HM HC]]]].
+  pose proof HS as [S1 S2 S3 S4 S5]. pose proof HF as [HR [HI [H8 [HM HC]]]].
   destruct (S3 i ls Hi Hr Hls) as [Keys Back].
   destruct (R_ids _ _ _ HR _ _ _ Hin) as [Hsrc _].
   pose proof (S4 _ _ _ _ _ _ Hin) as Hne.
@@ -446,8 +496,11 @@ Proof.
   { intros p m Hpm. apply aset_in in Hpm. destruct Hpm as [[-> ->]|Hpm].
     - right. exists fol. unfold nd. rewrite <- Ht. exact Hin.
     - apply (Back p m Hpm). }
-  destruct (try_advance_shape y) as [Xl [Xt [Xr [Xv Xc]]]].
-  cbn [y log term rl lvs commit] in Xl, Xt, Xr, Xv.
+  destruct (try_advance_shape y) as [Xl [Xt [Xr [Xv [Xb [Xf Xc]]]]]].
+  cbn [y log term rl lvs commit base fin] in Xl, Xt, Xr, Xv, Xb, Xf.
+  assert (HB : base (try_advance cfg ru y) <= commit (try_advance cfg ru y) /\ fin (try_advance cfg ru y) <= commit (try_advance cfg ru y)).
+  { destruct (S5 i Hi) as [B1 B2]. fold nd in B1, B2. rewrite Xb, Xf.
+    destruct Xc as [Xc|[ls0 [e0 [_ [_ [Hlt0 _]]]]]]; [rewrite Xc; cbn [y commit]; auto|cbn [y commit] in Hlt0; split; lia]. }
   apply (si_upd s gl a gl' a' i _ []); auto.
   all: try (intros ? ? ? ? ? ? ? []; fail).
   all: try (intros ? ? ? ? ? []; fail).
@@ -510,8 +563,8 @@ Theorem si_step s gl a o gl' a' :
 Proof.
   intros HF HS Hl He.
   assert (Stay : SI s gl' a') by (eapply si_stay; eauto).
-  pose proof HF as [HR [HI [H8 [HM HC]]]]. pose proof HS as [S1 S2 S3 S4].
-  destruct o as [i|i|i|i|i p ok|k ok|i|i ok]; cbn [gstep].
+  pose proof HF as [HR [HI [H8 [HM HC]]]]. pose proof HS as [S1 S2 S3 S4 S5].
+  destruct o as [i|i|i|i|i p ok|k ok|i|i ok|i h|i]; cbn [gstep].
   - (* GElect *)
     unfold valid_id. destruct (N.ltb_spec i (n_nodes cfg)) as [Hi|]; cbn [fst]; [|exact Stay].
     apply (si_frame s gl a gl' a' i); auto.
@@ -551,13 +604,13 @@ Proof.
     destruct m as [t cand lli llt|t g voter|t cand lli llt|t g voter|t ldr pi pt es lc|t succ fol mi]; cbn [deliver] in *; cbv zeta in *.
     + (* RV *)
       destruct (h_rv ru dst (nd_of s dst) t cand lli llt ok) as [nd' r] eqn:Eh.
-      destruct (h_rv_resp cfg ru quorum_ok ack_ok prev_sound vote_sound _ _ _ _ _ _ _ _ _ Eh) as [tt [g [Er _]]]. subst r.
+      destruct (h_rv_resp cfg ru quorum_ok ack_ok prev_sound need_prev vote_sound _ _ _ _ _ _ _ _ _ Eh) as [tt [g [Er _]]]. subst r.
       pose proof (h_rv_K2 dst (nd_of s dst) t cand lli llt ok) as HK. rewrite Eh in HK. cbn [fst] in HK.
       apply (si_frame s gl a gl' a' dst); auto.
       * intros d t0 ldr pi pt es lc [E|[]]. discriminate.
       * intros d t0 b fol mi [E|[]]. discriminate.
     + (* RVR *)
-      destruct (h_rvr_shape dst (nd_of s dst) src t g) as [HK|[y [Ex [Yl [Yc Yt]]]]].
+      destruct (h_rvr_shape dst (nd_of s dst) src t g) as [HK|[y [Ex [Yl [Yc [Yt [Yb Yf]]]]]]].
       * apply (si_frame s gl a gl' a' dst); auto.
         all: try (intros ? ? ? ? ? ? ? []; fail).
         all: try (intros ? ? ? ? ? ? []; fail).
@@ -579,24 +632,34 @@ Proof.
       set (nd1 := if N.ltb (term nd) t then step_down nd t else nd) in *.
       assert (Hl1 : log nd1 = log nd) by (unfold nd1; destruct (N.ltb (term nd) t); reflexivity).
       assert (Hc1 : commit nd1 = commit nd) by (unfold nd1; destruct (N.ltb (term nd) t); reflexivity).
+      assert (Hb1 : base nd1 = base nd) by (unfold nd1; destruct (N.ltb (term nd) t); reflexivity).
+      assert (Hf1 : fin nd1 = fin nd) by (unfold nd1; destruct (N.ltb (term nd) t); reflexivity).
       assert (Ht1 : term nd <= term nd1) by (unfold nd1; destruct (N.ltb_spec (term nd) t); cbn; lia).
       pose proof (c_ae_src _ _ _ _ HC _ _ _ _ _ _ _ _ Hin) as Hsd.
       destruct (N.eqb_spec t (term nd1)) as [Et|Hne].
       * match goal with |- context [if (if N.eqb pi 0 then true else ?rest) then _ else _] =>
           destruct (if N.eqb pi 0 then true else rest) eqn:Elok end.
         -- rewrite <- Et in *.
+           assert (Hok : pi = 0 \/ (pi <= llen (log (nd_of s dst)) /\
+                           (term_at (log (nd_of s dst)) (N.to_nat pi) = Some pt \/ pi <= base (nd_of s dst)))).
+           { rewrite Hl1, Hb1 in Elok. unfold nd in *. destruct (N.eqb_spec pi 0) as [->|Hpi]; [left; reflexivity|right].
+             destruct (N.leb_spec pi (llen (log (nd_of s dst)))) as [Hle|]; [|discriminate]. split; [exact Hle|].
+             unfold lookup in Elok. destruct (N.leb_spec pi (base (nd_of s dst))) as [Hcb|Hncb]; [right; exact Hcb|left].
+             rewrite nth_entry_ent_at in Elok. unfold term_at.
+             destruct (ent_at (log (nd_of s dst)) (N.to_nat pi)) as [x0|] eqn:Ex.
+             - apply prev_sound in Elok. cbn. congruence.
+             - exfalso. unfold ent_at in Ex. destruct (N.to_nat pi) as [|kk] eqn:Ekk; [lia|].
+               apply nth_error_None in Ex. unfold llen in Hle. lia. }
+           destruct (lm_M1 _ _ _ _ HM _ _ _ _ _ _ _ _ Hin) as [_ [Hseg0 [_ Hplen0]]].
+           assert (Hsucc : append_ok (gap_refused ru) (base nd1) es (log nd1) = true).
+           { rewrite Hl1. apply (append_ok_seg (gap_refused ru) (base nd1) es (log nd) (N.to_nat pi) (gl t)); [apply (lm_wi_gl _ _ _ _ HM)| |exact Hseg0].
+             unfold nd in *. destruct Hok as [->|[Hle _]]; [cbn; lia|unfold llen in Hle; lia]. }
+           rewrite Hsucc.
            eapply (si_ae s gl a gl' a' dst src t ldr pi pt es lc _ _); eauto.
-           all: try (cbn [log commit]; rewrite ?Hl1, ?Hc1; reflexivity).
+           all: try (cbn [log commit base fin]; rewrite ?Hl1, ?Hc1, ?Hb1, ?Hf1; reflexivity).
            all: try (unfold nd in *; exact Ht1).
-           rewrite Hl1 in Elok. unfold nd in *. destruct (N.eqb_spec pi 0) as [->|Hpi]; [left; reflexivity|right].
-           destruct (N.leb_spec pi (llen (log (nd_of s dst)))) as [Hle|]; [|discriminate]. split; [exact Hle|].
-           rewrite nth_entry_ent_at in Elok. unfold term_at.
-           destruct (ent_at (log (nd_of s dst)) (N.to_nat pi)) as [x0|] eqn:Ex.
-           ++ apply prev_sound in Elok. cbn. congruence.
-           ++ exfalso. unfold ent_at in Ex. destruct (N.to_nat pi) as [|kk] eqn:Ekk; [lia|].
-              apply nth_error_None in Ex. unfold llen in Hle. lia.
         -- apply (si_frame s gl a gl' a' dst); auto.
-           ++ apply K2_nl; cbn; auto. discriminate.
+           ++ apply K2_nl; cbn; auto; try discriminate.
            ++ intros d t0 ldr0 pi0 pt0 es0 lc0 [E|[]]. discriminate.
            ++ intros d t0 b fol mi [E|[]]. injection E as <- _ _ _ _. congruence.
       * apply (si_frame s gl a gl' a' dst); auto.
@@ -622,6 +685,32 @@ Proof.
     all: try (intros ? ? ? ? ? ? ? []; fail).
     all: try (intros ? ? ? ? ? ? []; fail).
     apply K2_nl; cbn; auto; try lia; discriminate.
+  - (* GFinalize *)
+    unfold valid_id. destruct (N.ltb_spec i (n_nodes cfg)) as [Hi|]; cbn [fst]; [|exact Stay].
+    unfold finalize. destruct (N.leb_spec h (commit (nd_of s i))) as [Hh|].
+    2:{ apply (si_frame s gl a gl' a' i); auto.
+        all: try (intros ? ? ? ? ? ? ? []; fail).
+        all: try (intros ? ? ? ? ? ? []; fail).
+        apply K2_refl. }
+    apply (si_upd s gl a gl' a' i _ []); auto; cbn [log commit term rl lvs base fin].
+    all: try (intros ? ? ? ? ? ? ? []; fail).
+    all: try (intros ? ? ? ? ? []; fail).
+    + apply S1. exact Hi.
+    + intros ls Hr Hls. apply (S3 i ls Hi Hr Hls).
+    + destruct (S5 i Hi) as [B1 B2]. split; [exact B1|exact Hh].
+  - (* GCompact *)
+    unfold valid_id. destruct (N.ltb_spec i (n_nodes cfg)) as [Hi|]; cbn [fst]; [|exact Stay].
+    unfold compact. match goal with |- context [if ?c then _ else _] => destruct c eqn:Ec end.
+    2:{ apply (si_frame s gl a gl' a' i); auto.
+        all: try (intros ? ? ? ? ? ? ? []; fail).
+        all: try (intros ? ? ? ? ? ? []; fail).
+        apply K2_refl. }
+    apply (si_upd s gl a gl' a' i _ []); auto; cbn [log commit term rl lvs base fin].
+    all: try (intros ? ? ? ? ? ? ? []; fail).
+    all: try (intros ? ? ? ? ? []; fail).
+    + apply S1. exact Hi.
+    + intros ls Hr Hls. apply (S3 i ls Hi Hr Hls).
+    + destruct (S5 i Hi) as [B1 B2]. split; [lia|exact B2].
 Qed.
 
 (* ---------------- runs ---------------- *)
@@ -630,7 +719,7 @@ Definition SFI (s : sys) (gl : ledger) (a : Vote.sys) : Prop := FIa s gl a /\ SI
 Lemma pool_step s o e : In e (pool s) -> In e (pool (fst (gstep cfg ru s o))).
 Proof.
   intros H. assert (U : forall i x out, In e (pool (upd_node s i x out))) by (intros; apply pool_upd; left; exact H).
-  destruct o as [i|i|i|i|i p ok|k ok|i|i ok]; cbn [gstep]; unfold valid_id;
+  destruct o as [i|i|i|i|i p ok|k ok|i|i ok|i h|i]; cbn [gstep]; unfold valid_id;
     try (destruct (N.ltb i (n_nodes cfg)); cbn [fst]; auto; fail);
     try (destruct (N.ltb i (n_nodes cfg)); cbn [fst]; auto; destruct ok; cbn [fst]; auto; fail).
   - destruct (N.ltb i (n_nodes cfg)); cbn [fst]; auto. destruct (rl (nd_of s i)); auto.
@@ -648,7 +737,7 @@ Proof.
   intros [HF HS]. pose proof HF as [HR [HI [H8 [HM HC]]]].
   assert (HB : FIB cfg (Vote.leaders a) s gl).
   { exists a. split; [exact HR|]. split; [exact HI|]. split; [exact H8|]. split; [exact HM|]. split; [exact HC|apply incl_refl]. }
-  destruct (fi_step cfg ru quorum_ok ack_ok prev_sound vote_sound (Vote.leaders a) s gl o HB) as [gl' [[a' [HR' [HI' [H8' [HM' [HC' Hl]]]]]] He]].
+  destruct (fi_step cfg ru quorum_ok ack_ok prev_sound need_prev vote_sound (Vote.leaders a) s gl o HB (comp_ok s gl a HF HS)) as [gl' [[a' [HR' [HI' [H8' [HM' [HC' Hl]]]]]] He]].
   exists gl', a'. split; [split|split]; auto.
   - split; [exact HR'|]. split; [exact HI'|]. split; [exact H8'|]. split; [exact HM'|exact HC'].
   - eapply si_step; eauto.
@@ -673,11 +762,12 @@ Proof.
   - intros ? ? ? ? ? ? ? ? [].
   - intros i ls Hi Hr. rewrite (init_node_of cfg) in Hr. discriminate.
   - intros ? ? ? ? ? ? [].
+  - intros i Hi. rewrite (init_node_of cfg). cbn. split; lia.
 Qed.
 
 Lemma sfi_init : exists a, SFI (init_sys cfg) (fun _ => []) a.
 Proof.
-  destruct (FI_init cfg ru quorum_ok ack_ok prev_sound vote_sound) as [a [HR [HI [H8 [HM [HC _]]]]]].
+  destruct (FI_init cfg ru quorum_ok ack_ok prev_sound need_prev vote_sound) as [a [HR [HI [H8 [HM [HC _]]]]]].
   exists a. split; [|apply SI_init]. split; [exact HR|]. split; [exact HI|]. split; [exact H8|]. split; [exact HM|exact HC].
 Qed.
 
@@ -748,6 +838,57 @@ Proof.
     rewrite HP, firstn_firstn. f_equal. lia.
   - assert (length (firstn m (gl2 (term (nd_of s2 c)))) = length (firstn m (gl2 t))) by (rewrite HP; reflexivity).
     rewrite !firstn_length in H. lia.
+Qed.
+
+(* ---------------- the invariants of every reachable state, and what follows from them ---------------- *)
+Lemma sfi_run : forall ops, exists gl a, SFI (grun cfg ru ops) gl a.
+Proof.
+  intros ops. destruct sfi_init as [a0 H0].
+  destruct (sfi_run_from ops _ _ _ H0) as [gl [a [H _]]]. rewrite (grun_run_from cfg ru). eauto.
+Qed.
+
+(* LOG MATCHING for every reachable state (with compaction this needs the commit invariant: a follower that
+   has compacted an entry no longer checks it against the leader's) *)
+Theorem log_matching : forall ops i j k t,
+  let s := grun cfg ru ops in
+  term_at (log (nd_of s i)) k = Some t -> term_at (log (nd_of s j)) k = Some t ->
+  firstn k (log (nd_of s i)) = firstn k (log (nd_of s j)).
+Proof.
+  intros ops i j k t s Hi Hj. destruct (sfi_run ops) as [gl [a [[_ [_ [_ [HM _]]]] _]]]. fold s in HM.
+  eapply LM_agree; [apply (lm_L1 _ _ _ _ HM i)|apply (lm_L1 _ _ _ _ HM j)|exact Hi|exact Hj].
+Qed.
+
+Theorem logs_well_formed : forall ops i,
+  let s := grun cfg ru ops in
+  WI (log (nd_of s i)) /\ forall e, In e (log (nd_of s i)) -> eterm e <= term (nd_of s i).
+Proof.
+  intros ops i s. destruct (sfi_run ops) as [gl [a [[_ [_ [_ [HM _]]]] _]]]. fold s in HM.
+  split; [apply (lm_wi_log _ _ _ _ HM)|apply (lm_T1 _ _ _ _ HM)].
+Qed.
+
+(* LEADER COMPLETENESS for every reachable state: whenever a quorum has acknowledged position m of the
+   ledger of term t (an entry created in term t), every node that is leader of a later term holds the
+   first m entries of that ledger. *)
+Theorem leader_completeness : forall ops,
+  let s := grun cfg ru ops in
+  exists gl a, LMI s gl a /\ LCI s gl a /\
+    forall t m, QA s gl a t m ->
+      forall c, c < n_nodes cfg -> rl (nd_of s c) = Leader -> t < term (nd_of s c) ->
+        firstn m (log (nd_of s c)) = firstn m (gl t).
+Proof.
+  intros ops s. destruct (sfi_run ops) as [gl [a [[HR [HI [H8 [HM HC]]]] _]]]. fold s in HR, HM, HC.
+  exists gl, a. split; [exact HM|]. split; [exact HC|].
+  intros t m HQ c Hc Hl Ht.
+  pose proof (leader_in_ghost cfg s a c HR HI Hc Hl) as Hld.
+  rewrite (lm_L3 _ _ _ _ HM c Hc Hl).
+  apply (leader_completeness_inv cfg ru quorum_ok ack_ok s gl a HC t m HQ _ c Hld Ht).
+Qed.
+
+(* what a node has compacted away it had committed, and it still holds at least one entry *)
+Theorem compaction_within_commit : forall ops i, i < n_nodes cfg ->
+  let s := grun cfg ru ops in base (nd_of s i) <= commit (nd_of s i).
+Proof.
+  intros ops i Hi s. destruct (sfi_run ops) as [gl [a [_ HS]]]. fold s in HS. apply (s_base _ _ _ HS i Hi).
 Qed.
 
 End Safety.
